@@ -239,6 +239,11 @@ SOLO_COMPOSITES = [
       enf=False, ff=False, sup=False),
     L("subschema_never", {"allOf": [STR], "oneOf": [INT, BOOL]}, ff=False, enf=False, sup=False),
     L("allof_anyof_mix", {"allOf": [obj({"a": INT})], "anyOf": [{"required": ["a"]}, {"required": ["b"]}]}, ff=False, enf=False, sup=False),
+    L("map_pat_required", {"type": "object", "patternProperties": {"^[a-z]+$": INT}, "required": ["abc"], "additionalProperties": False}, ff=False, enf=False, sup=False),
+    L("map_pat_with_props", {"type": "object", "properties": {"fixed": STR}, "patternProperties": {"^x-": INT}, "additionalProperties": False}, ff=False, enf=False, sup=False),
+    L("map_pat_two", {"type": "object", "patternProperties": {"^a": INT, "^b": INT}, "additionalProperties": False}, ff=False, enf=False, sup=False),
+    L("map_pat_two_diff", {"type": "object", "patternProperties": {"^a": INT, "^b": STR}, "additionalProperties": False}, ff=False, enf=False, sup=False),
+    L("map_pat_ap_true", {"type": "object", "patternProperties": {"^a": INT}, "additionalProperties": True}, ff=False, enf=False, sup=False),
     L("enum_empty", {"type": "string", "enum": []}, ff=False, enf=False, sup=False),
     L("enum_str_bad_value", {"type": "string", "enum": ["a", 1]}, ff=False, enf=False, sup=False),
     L("pattern_invalid", {"type": "string", "pattern": "("}, ff=False, enf=False, sup=False),
@@ -401,6 +406,7 @@ MEMBER_TYPES = {
     "set": ({"type": "array", "items": INT, "uniqueItems": True}, [], [3]),
     "map": ({"type": "object", "additionalProperties": INT}, {}, {"tier": 2}), "map_any": ({"type": "object"}, {}, {"k": [1]}),
     "nullable": ({"type": ["string", "null"]}, None, "nd"), "tuple": ({"type": "array", "items": [INT, STR], "minItems": 2, "maxItems": 2}, None, [7, "d"]),
+    "tuple1": ({"type": "array", "items": [INT], "minItems": 1, "maxItems": 1}, None, [7]),
     "unit": ({"type": "null"}, None, None), "any": ({}, None, {"d": 1}), "uuid": ({"type": "string", "format": "uuid"}, None, None),
     "inline_struct": (obj({"q": INT}, ["q"]), None, {"q": 1}),
 }
